@@ -15,6 +15,10 @@ type HistTrace struct {
 	H     *History
 	Steps []StepTrace
 	Err   error // harness-level failure (could not run)
+	// VerifyFail is the first end-to-end condition of a dynamic step that
+	// failed (with the index of the recorded step after which it was checked).
+	VerifyFail string
+	VerifyStep int
 }
 
 // Execute runs the history on a fresh in-memory database.
@@ -27,6 +31,27 @@ func Execute(h *History) *HistTrace {
 	}
 	defer x.Close()
 	for _, st := range h.Steps {
+		if st.Gen != nil {
+			for i := 0; i < 500; i++ {
+				op := st.Gen(x)
+				if op == nil {
+					break
+				}
+				tr, err := x.RunStep(&Step{Ops: []*Op{op}})
+				if err != nil {
+					ht.Err = err
+					return ht
+				}
+				ht.Steps = append(ht.Steps, tr)
+			}
+			if st.Verify != nil && ht.VerifyFail == "" {
+				if msg := st.Verify(x); msg != "" {
+					ht.VerifyFail = msg
+					ht.VerifyStep = len(ht.Steps) - 1
+				}
+			}
+			continue
+		}
 		tr, err := x.RunStep(st)
 		if err != nil {
 			ht.Err = err
@@ -103,11 +128,12 @@ func RunModel(hts []*HistTrace) ([][]ModelStep, error) {
 // Finding kinds.
 const (
 	KindNone     = ""
-	KindImplRes  = "impl-result"  // real result differs from the faithful model's
-	KindImplDump = "impl-dump"    // real tables differ from the faithful model's
-	KindSpec     = "spec"         // behaviour deviates from the abstract specification
-	KindAudit    = "audit"        // the reached state breaks a structural / no-trace / metadata rule
-	KindHarness  = "harness"      // could not run
+	KindImplRes  = "impl-result" // real result differs from the faithful model's
+	KindImplDump = "impl-dump"   // real tables differ from the faithful model's
+	KindSpec     = "spec"        // behaviour deviates from the abstract specification
+	KindAudit    = "audit"       // the reached state breaks a structural / no-trace / metadata rule
+	KindVerify   = "iteration"   // an end-to-end condition of a cursor iteration failed
+	KindHarness  = "harness"     // could not run
 )
 
 // Verdict is the outcome of comparing one history.
@@ -156,6 +182,10 @@ func Compare(ht *HistTrace, ms []ModelStep) Verdict {
 			v.Detail = fmt.Sprintf("step %d %v\n  %s", i, st.Input, m.V)
 			return v
 		}
+	}
+	if ht.VerifyFail != "" {
+		v.Kind, v.Step = KindVerify, ht.VerifyStep
+		v.Detail = ht.VerifyFail
 	}
 	return v
 }
